@@ -18,6 +18,22 @@ pub fn all_whitespace() -> Vec<String> {
     (0u32..0x11_0000).filter_map(char::from_u32).filter(|c| c.is_whitespace()).map(|c| c.to_string()).collect()
 }
 
+/// `//` + c + text, for every printable ASCII character c (and two doubled forms).
+pub fn comment_initial_gaps() -> &'static [&'static str] {
+    static G: std::sync::OnceLock<Vec<&'static str>> = std::sync::OnceLock::new();
+    G.get_or_init(|| {
+        let mut v: Vec<String> = vec![];
+        for c in 0x20u8..0x7f {
+            v.push(format!("//{} x\n", c as char));
+            v.push(format!("//{}\n", c as char));
+        }
+        for s in ["//// x\n", "///// x\n", "//!! x\n", "/// #[a] $T start\n", "//#[derive(Debug)]\n", "// /// x\n"] {
+            v.push(s.to_string());
+        }
+        v.into_iter().map(|s| &*Box::leak(s.into_boxed_str())).collect()
+    })
+}
+
 /// Gaps that are large in one dimension.
 pub fn big_gaps() -> &'static [&'static str] {
     static G: std::sync::OnceLock<Vec<&'static str>> = std::sync::OnceLock::new();
@@ -260,6 +276,13 @@ pub fn explore_source(name: &str, original: &str, pairs: bool, acc: &mut Acc) {
                 continue;
             }
             try_layout(layout(&texts, &|j| if j == i { *g } else if j == 0 || j == n { "" } else { " " }, ""), "1-gap deviations with a large gap (255..257 / 65535..65537 bytes, hundreds of lines or comments)", acc);
+        }
+    }
+    // comments whose text begins with each printable ASCII character (`///`, `//!`, `//#[a]`, `//*`, ...): what a
+    // comment says must not matter, whatever it looks like to other tools
+    for i in 0..=n {
+        for g in comment_initial_gaps().iter() {
+            try_layout(layout(&texts, &|j| if j == i { *g } else if j == 0 || j == n { "" } else { " " }, ""), "1-gap deviations with a comment beginning with each printable ASCII character", acc);
         }
     }
     if (pairs && n <= 60) || n <= 36 {
